@@ -9,7 +9,7 @@ COMMON_TRUST = [
     "machine integers as mathematical integers (overflow outside the claim; counters assumed < 2^20 where arithmetic occurs)",
 ]
 
-BROKER_H = ["eventlogger/broker_state.go", "eventlogger/broker_ops.go", "eventlogger/c02.go", "eventlogger/c01_c07_c20.go", "eventlogger/c14.go", "eventlogger/c04.go", "eventlogger/c12.go", "eventlogger/interleave.go", "eventlogger/c19.go", "eventlogger/filesink.go"]
+BROKER_H = ["eventlogger/broker_state.go", "eventlogger/broker_ops.go", "eventlogger/c02.go", "eventlogger/c01_c07_c20.go", "eventlogger/c14.go", "eventlogger/c04.go", "eventlogger/c12.go", "eventlogger/interleave.go", "eventlogger/c19.go", "eventlogger/filesink.go", "eventlogger/history.go"]
 
 PROPS = {
     "C02": dict(
@@ -24,19 +24,21 @@ PROPS = {
     "C05": dict(
         level="other",
         explanation="Inductive step: RegisterPipeline / RegisterNode / RemoveNode / RemovePipelineAndNodes / IsAnyPipelineRegistered executed symbolically from an arbitrary broker state under the representation invariant (K symbolic node ids, symbolic types/policies/counts, target pipeline + one other pipeline explicit, the rest as ghost counts); spec predicate written independently in the harness; err==nil <=> spec and frame conditions discharged by z3.",
-        jobs=[dict(harness=BROKER_H, entries=r"^H_C05_", params=dict(quick=dict(K=2, L=2), thorough=dict(K=3, L=3)),
-                   shards=dict(quick=1, thorough=16, H_C05_RegisterPipeline=16, H_C05_isany_after_history=16))],
-        must_reach=["C05.register.ok", "C05.register.fail", "C05.isany.end", "C05.registernode.fail", "C05.removenode.fail", "C05.rpan.false", "C05.isany.history"],
-        bounds=dict(quick="K=2 node ids, definition length 0..2, existing pipeline length 2, one other pipeline; any number of pipelines of other types (ghost)",
-                    thorough="K=3 node ids, definition length 0..3, existing pipeline length 2..3"),
+        jobs=[dict(harness=BROKER_H, entries=r"^H_C05_", params=dict(quick=dict(K=2, L=2, H=2), thorough=dict(K=3, L=3, H=3)),
+                   shards=dict(quick=1, thorough=16, H_C05_RegisterPipeline=16, H_C05_isany_after_history=16, H_C05_history_vs_model=16))],
+        must_reach=["C05.register.ok", "C05.register.fail", "C05.isany.end", "C05.registernode.fail", "C05.removenode.fail", "C05.rpan.false", "C05.isany.history", "C05.history.end"],
+        bounds=dict(quick="K=2 node ids, definition length 0..2, existing pipeline length 2, one other pipeline; any number of pipelines of other types (ghost); histories: 2 operations (12 kinds x policy) from 72 API-built pre-states over ids {f,s,s2} x pipelines {p,q}",
+                    thorough="K=3 node ids, definition length 0..3, existing pipeline length 2..3; histories of 3 operations"),
         trusted_base=COMMON_TRUST,
     ),
     "C06": dict(
         level="other",
         explanation="Inductive step of every mutator (RegisterNode, RegisterPipeline, RemovePipeline, RemovePipelineAndNodes, RemoveNode) against the exact reference-count invariant referenceCount == listings by registered pipelines (+ ghost listings by untouched types), plus per-operation post-conditions (closed exactly once, only unreferenced nodes removed, errors carried).",
         jobs=[dict(harness=BROKER_H, entries=r"^H_C06_", params=dict(quick=dict(K=2, L=3), thorough=dict(K=3, L=4)),
-                   shards=dict(quick=4, thorough=16, H_C06_RegisterPipeline=16))],
-        must_reach=["C06.base", "C06.registerpipeline.ok", "C06.removepipeline.target", "C06.rpan.true", "C06.removenode.end", "C06.registernode.end"],
+                   shards=dict(quick=4, thorough=16, H_C06_RegisterPipeline=16)),
+              # all histories of H operations from API-built states against the reference model (closes / in-use / deliveries)
+              dict(harness=BROKER_H, entries=r"^H_C05_history_vs_model$", params=dict(quick=dict(H=2), thorough=dict(H=3)), shards=dict(quick=16, thorough=16))],
+        must_reach=["C05.history.end", "C06.base", "C06.registerpipeline.ok", "C06.removepipeline.target", "C06.rpan.true", "C06.removenode.end", "C06.registernode.end"],
         bounds=dict(quick="K=2 node ids, pipelines/definitions up to 3 nodes", thorough="K=3 node ids, up to 4 nodes"),
         trusted_base=COMMON_TRUST,
     ),
@@ -45,8 +47,9 @@ PROPS = {
         explanation="Inductive step of RegisterNode and RegisterPipeline over symbolic policies (allow/deny/default/arbitrary invalid strings): fails iff the existing entry says DenyOverwrite (or the request is invalid) and then changes nothing; otherwise the stored policy is the requested one; linked pipelines and same-id pipelines of other event types are untouched.",
         jobs=[dict(harness=BROKER_H, entries=r"^H_C07_RegisterNode$|^H_C07_pipeline_other_type$|^H_C05_RegisterPipeline$", params=dict(quick=dict(K=2, L=2), thorough=dict(K=3, L=3)),
                    shards=dict(quick=1, thorough=16, H_C05_RegisterPipeline=16, H_C07_pipeline_other_type=8)),
-              dict(harness=BROKER_H, entries=r"^H_C07_send_vs_overwrite$|^H_C07_policies_interleaved$", params=dict(quick={}, thorough={}), shards=dict(quick=4, thorough=8), maxswitches=dict(quick=3, thorough=5), instrument_locks=True)],
-        must_reach=["C07.node.ok", "C07.node.fail", "C07.othertype.end", "C05.register.ok", "C05.register.fail", "C07.overwrite-vs-send.end", "C07.policies.end"],
+              dict(harness=BROKER_H, entries=r"^H_C07_send_vs_overwrite$|^H_C07_policies_interleaved$", params=dict(quick={}, thorough={}), shards=dict(quick=4, thorough=8), maxswitches=dict(quick=3, thorough=5), instrument_locks=True),
+              dict(harness=BROKER_H, entries=r"^H_C05_history_vs_model$", params=dict(quick=dict(H=2), thorough=dict(H=3)), shards=dict(quick=16, thorough=16))],
+        must_reach=["C05.history.end", "C07.node.ok", "C07.node.fail", "C07.othertype.end", "C05.register.ok", "C05.register.fail", "C07.overwrite-vs-send.end", "C07.policies.end"],
         bounds=dict(quick="K=2, L=2; policy strings arbitrary", thorough="K=3, L=3"),
         trusted_base=COMMON_TRUST,
     ),
